@@ -33,7 +33,8 @@ FLOORS = {
 }
 SHARD_TIMEOUT = {"quick": 600, "thorough": 3000}
 
-PREFIXES = [("# Filter: ", "# Description: "), ("# rule:", "# desc:"), ("#F ", "#D ")]
+PREFIXES = [("# Filter: ", "# Description: "), ("# rule:", "# desc:"), ("#F ", "#D "),
+            ("# Règle : ", "# Déscription : "), ("# 规则：", "# 说明：")]
 NAMES = ["rule1", "Rule é", "filter #2", "x: y", "名前", "a-b_c.d", "UPPER lower",
          "n(1)", "50%", "[test]", "a,b", "Filter", "Description", "#hash first", "last hash#",
          "\"q\"", "keep;", "if false {"]
